@@ -131,23 +131,29 @@ var checks = []Check{
 			{Dir: "mongokit", Func: "H_C10_not2", Quick: P{"ddepth": 0, "vdepth": 0, "dlen": 1, "dtags": TNull | TInt32 | TString | TArray, "vtags": TInt32 | TString}, Thorough: P{"ddepth": 1, "vdepth": 0, "dlen": 1}},
 			{Dir: "mongokit", Func: "H_C10_reftype", Quick: P{"ddepth": 1, "dlen": 1}, Thorough: P{"ddepth": 2}},
 			{Dir: "mongokit", Func: "H_C10_refmisc", Quick: P{"ddepth": 1, "dlen": 1}, Thorough: P{"ddepth": 2}},
+			{Dir: "mongokit", Func: "H_C10_refall", Quick: P{}, Thorough: P{}, Note: "$all / $size against reference semantics"},
+			{Dir: "mongokit", Func: "H_C10_refelem", Quick: P{}, Thorough: P{}, Note: "$elemMatch (operator and document form) against reference semantics"},
+			{Dir: "mongokit", Func: "H_C10_refnum", Quick: P{}, Thorough: P{}, Note: "$mod and $bitsAllSet/$bitsAnySet/... against integer arithmetic"},
 		},
 		Assumptions: commonAssumptions,
 		Bounds: []string{"document: <= 2 fields (keys a,b), values null/int32/int64/double/string/bool/array/document, arrays and sub-documents of length <= 2, nesting depth ddepth; paths from {a,b,a.a,a.0,a.0.a,c}; operands any value of the same domain with depth vdepth",
 			"oracle harnesses (refcmp, refmisc) restrict to the core domain of the property: no arrays directly inside arrays; fan-out over sub-documents only with a non-null scalar operand",
+			"$all/$size/$elemMatch: field a missing, scalar or array (<= 3 elements of int32/string/{x:int32}); $mod: divisor 1..4 of either sign, |field| < 2^20 (64-bit symbolic remainder is out of the solver's reach beyond that); bit operators: masks over bits 0..2, field any int32/int64",
 			"outside: $jsonSchema, Decimal128, regex operands, date/timestamp/objectid/binary field values in the filter harnesses (covered for Compare by C12)"},
 	},
 	{
 		Property: "C01",
 		Harnesses: []Harness{
-			{Dir: ".", Func: "H_C01_call", Quick: P{"maxdocs": 1, "tags": TNull | TInt32 | TString | TArray, "fixedclock": 1}, Thorough: P{"maxdocs": 2, "tags": TNull | TInt32 | TString | TArray, "fixedclock": 1}},
+			{Dir: ".", Func: "H_C01_call", Quick: P{"maxdocs": 2, "tags": TNull | TInt32 | TString | TArray, "fixedclock": 1}, Thorough: P{"maxdocs": 3, "tags": TNull | TInt32 | TString | TArray, "fixedclock": 1}},
+			{Dir: ".", Func: "H_C01_multi", Quick: P{"maxdocs": 2, "fixedclock": 1}, Thorough: P{"maxdocs": 3, "fixedclock": 1}, Note: "InsertMany (ordered/unordered, duplicates), FindOneAndDelete/Replace, BulkWrite, index management through IndexView, failed insert + upsert + UpdateMany"},
 			lemClone,
 		},
 		Assumptions: append([]string{"the sequential model is a list of documents in insertion order plus the operator semantics of mongokit.Match / bsonkit.Put, which C10/C11 check against MongoDB's definitions separately; the BSON codec is stubbed as a structure-preserving copy",
 			"engine, client, collection, cursor, tomb and context code runs from its real SSA (sequential scheduler: background goroutines run only when the caller blocks)"}, commonAssumptions...),
 		Bounds: []string{"pre-state: 0..maxdocs documents {_id: i, a?: X} inserted through InsertOne; then ONE call: InsertOne (with/without _id, duplicate ids), CountDocuments (skip/limit), UpdateOne/UpdateMany ($set), DeleteOne/DeleteMany, ReplaceOne (with/without upsert), FindOneAndUpdate (Before/After), Find (sort by _id, skip, limit), Drop (+re-insert); filters {}, {_id: k}, {a: v}",
 			"after the call Find({}) must equal the model; two-call interactions beyond 'setup inserts + call' and longer histories rest on the one-step argument of DESIGN.md 3.4 (C15/C02/C08 steps)",
-			"outside: BulkWrite, InsertMany ordering, index management through IndexView (covered at transaction level by C15/C07/C02), Distinct (C13), projections (C14), options not listed"},
+			"second family (H_C01_multi): InsertMany of two documents ordered/unordered with arbitrary int32 ids; FindOneAndDelete; FindOneAndReplace (Before/After); ordered BulkWrite insert+update+delete; IndexView CreateOne (unique or not, identical and conflicting re-creation), DropAll, List; failed InsertOne followed by an upserting UpdateOne and an UpdateMany",
+			"outside: Distinct (C13), projections (C14), options not listed"},
 	},
 	{
 		Property: "C17",
@@ -301,13 +307,16 @@ var checks = []Check{
 			{Dir: "mongokit", Func: "H_C11_ref", Quick: P{"ddepth": 1, "tags": TNull | TInt32 | TString | TArray}, Thorough: P{"ddepth": 1}},
 			{Dir: "mongokit", Func: "H_C11_idem", Quick: P{"ddepth": 1, "tags": TNull | TInt32 | TString | TArray | TDoc}, Thorough: P{"ddepth": 1}},
 			{Dir: "mongokit", Func: "H_C11_modified", Quick: P{"ddepth": 0, "tags": TNull | TInt32 | TDouble | TString | TArray}, Thorough: P{"ddepth": 1}},
+			{Dir: "mongokit", Func: "H_C11_pushmod", Quick: P{"maxarr": 2, "maxeach": 1}, Thorough: P{"maxarr": 3, "maxeach": 2}, Note: "$push with $each/$position/$sort/$slice against the manual's semantics, full-range 64-bit modifier arguments"},
+			{Dir: "mongokit", Func: "H_C11_positional", Quick: P{"maxarr": 3}, Thorough: P{"maxarr": 4}, Note: "$[] and $[id] with array filters"},
 			lemClone,
 		},
 		Assumptions: commonAssumptions,
 		Bounds: []string{"$inc: every int32/int64/double pair incl. a missing field; $mul: every pair with a double or two int32; products involving an int64 only for |operands| < 2^31 (64x64-bit symbolic multiplication is out of reach: stated bound)",
 			"field operators vs reference semantics: document {a?,b?} (<=2 fields, values null/int32/double/string/array/document of int32/string), top-level target a,b,c; operands of the same domain; $pull with scalar/array operands",
 			"idempotence / untouched fields: paths a,b,c,a.a,a.0,a.1,b.a; modified-count and rejected-update checks go through the real Collection.Update with the canonical-encoding stub for bson.Marshal",
-			"outside: Decimal128, $currentDate values (stubbed clock), positional operators ($[], $[id]) beyond the no-panic check of C20, $push modifiers beyond C20's no-panic check"},
+			"$push modifiers: target array of <= maxarr int32 elements (or missing), $each of <= maxeach int32 elements, $position and $slice any int64, $sort 1/-1 on scalars; positional: arrays of <= maxarr int32 or {x:int32,y} elements, $set/$inc through a.$[] / a.$[i] with filter {i: {$gte: c}}",
+			"outside: Decimal128, $currentDate values (stubbed clock), the first-match positional operator (a.$), $sort by sub-document keys"},
 	},
 	{
 		Property: "C14",
